@@ -20,6 +20,9 @@ CONSTANTS MaxCalls,
           NrefPersists,   \* FALSE: a refinement passed to propagate applies to
                           \*   that call only (the code, after the repair);
                           \*   TRUE: it stays switched on (negative control)
+          RestoreOnError, \* TRUE: a refinement passed to propagate is taken back
+                          \*   also when the propagation raises (the code:
+                          \*   try / finally); FALSE: negative control
           NefRecomputes   \* TRUE: the initial-condition term of the
                           \*   non-equilibrium Foerster tensor is recomputed
                           \*   from the submitted state by every propagation
@@ -62,6 +65,16 @@ RDMPropagate(k) ==
   /\ UNCHANGED <<userNref, ado, hamProt, hamCut, nefIc>>
   /\ lastCall' = "rdm_propagate" /\ Tick
 
+\* prop.propagate(rho, Nref=k, ...) that raises after the refinement was
+\* applied (unknown method, wrong type of the state, ...); the caller catches
+\* the exception and goes on with the same propagator
+RDMPropagateRaises(k) ==
+  /\ k > 1
+  /\ effNref' = IF RestoreOnError THEN effNref ELSE k
+  /\ lastDet' = TRUE                          \* no result is returned
+  /\ UNCHANGED <<userNref, ado, hamProt, hamCut, nefIc>>
+  /\ lastCall' = "rdm_propagate_raises" /\ Tick
+
 \* get_RelaxationTensor: protect, (subtract cut-off), build, (recover),
 \* unprotect -- the Hamiltonian is handed back as it was
 BuildTensor(cutoff) ==
@@ -96,6 +109,7 @@ Next ==
   \/ \E n \in 1 .. 3 : SetRefinement(n)
   \/ \E ic \in {1, 2} : NefPropagate(ic)
   \/ \E k \in {1, 4} : RDMPropagate(k)
+  \/ RDMPropagateRaises(4)
   \/ \E c \in BOOLEAN : BuildTensor(c)
   \/ HeomPropagate
   \/ \E nm \in {"eso_calculate", "pop_propagate", "sv_propagate",
